@@ -308,7 +308,16 @@ func (e *emitter) Message(data []byte, streamEnded bool) error {
 			}
 			data = buf.Bytes()
 		case Snappy:
-			data = snappy.Encode(nil, data)
+			// Messages are decoded with the framing format, so emit the same.
+			var buf bytes.Buffer
+			w := snappy.NewBufferedWriter(&buf)
+			if _, err := w.Write(data); err != nil {
+				return fmt.Errorf("snappy compressing message data: %w", err)
+			}
+			if err := w.Close(); err != nil {
+				return fmt.Errorf("snappy compressing message data: %w", err)
+			}
+			data = buf.Bytes()
 		}
 	}
 	var buf bytes.Buffer
